@@ -39,6 +39,7 @@ OPTS = ['fuzzyMatching', 'originalMatching', 'uppercaseMatching', 'lowcaseMatchi
 SEASONS = [1484480000, 1500000000, 1516000000, 1531600000, 1547500000, 1563100000]
 ZONES = [None, None, 'CET-1CEST,M3.5.0,M10.5.0/3', 'EST5EDT,M3.2.0,M11.1.0', 'AEST-10AEDT,M10.1.0,M4.1.0/3', 'IST-5:30']
 T0 = 1500000000   # even
+CWD0 = os.getcwd()
 
 
 def core_names(name, o):
@@ -162,6 +163,22 @@ def materialise(scn, root):
         return top
 
 
+def materialise_late(scn, top):
+    """files that appear in (or vanish from) the searched directory while the reader object is alive"""
+    with core.unhooked():
+        for e in scn.get('late', []):
+            p = os.path.join(top, e['path'])
+            os.makedirs(os.path.dirname(p), exist_ok=True)
+            with open(p, 'wb') as f:
+                f.write(_data(e))
+            os.utime(p, (e['mtime'], e['mtime']))
+        for path in scn.get('late_remove', []):
+            try:
+                os.unlink(os.path.join(top, path))
+            except OSError:
+                pass
+
+
 def make_url(scn, top):
     st = scn.get('url_style', 'bare')
     if st == 'bare':
@@ -212,6 +229,10 @@ def run(scn):
                 if scn.get('useIndexFile') is False:
                     ropts['useIndexFile'] = False
                 urls = [make_url(scn, top)]
+                if scn.get('chdir') and scn['kind'] == 'zip':
+                    # the archive is named relative to the working directory, which changes once the reader exists
+                    os.chdir(os.path.dirname(top))
+                    urls = [os.path.basename(top)]
                 pos = 0
                 dec = scn.get('decoy')
                 if dec:
@@ -228,7 +249,7 @@ def run(scn):
                     if scn.get('recursive') is False or scn.get('ignoreErrors') is False:
                         rd = FileReader(top, recursive=scn.get('recursive', True), ignoreErrors=scn.get('ignoreErrors', True)).setOptions(**ropts)
                 elif scn.get('ignoreErrors') is False:
-                    rd = ZipReader(top, ignoreErrors=False).setOptions(**ropts)
+                    rd = ZipReader(urls[pos] if scn.get('chdir') else top, ignoreErrors=False).setOptions(**ropts)
                 if scn.get('second_opts') is not None:
                     # the same URL handed to getReadersFromUrls once more with other options (as mibdump does for
                     # sources vs borrowers): must not affect the reader obtained first
@@ -245,6 +266,10 @@ def run(scn):
                 if scn.get('url_judged', True) and not isinstance(rd, want_cls):
                     V('C14.5-url', 'URL %s mapped to %s, expected %s' % (scn.get('url_style'), type(rd).__name__, want_cls.__name__), what='url-kind')
                 opn = 0
+                if scn.get('chdir') and scn['kind'] == 'zip':
+                    with core.unhooked():
+                        os.makedirs(os.path.join(root, 'workdir'), exist_ok=True)
+                    os.chdir(os.path.join(root, 'workdir'))
                 for name in [scn['request']] + list(scn.get('more_requests', [])) * 1 + ([scn['request']] if scn.get('more_requests') else []):
                   for k in range(scn.get('repeat', 1)):
                     opn += 1
@@ -261,14 +286,21 @@ def run(scn):
                             raise
                         res = ('foreign', type(e).__name__, e)
                     w.end_op(res[0])
-                    results.append((name, res))
+                    results.append((name, res, opn))
+                    if opn == 1 and (scn.get('late') or scn.get('late_remove')) and scn['kind'] == 'dir':
+                        materialise_late(scn, top)
         faulted = bool(w.fired) or bool(scn.get('notazip'))
         all_res = []
-        for name, res in (results or [(name, res)]):
+        for name, res, opn_ in (results or [(name, res, 1)]):
             # ---------------- reference model
             cap = scn.get('maxMibSize') or 10000000
             leaves = []
-            for e in scn['tree']:
+            tree_now = scn['tree']
+            if opn_ > 1 and scn['kind'] == 'dir' and (scn.get('late') or scn.get('late_remove')):
+                gone = set(scn.get('late_remove', []))
+                newp = set(e['path'] for e in scn.get('late', []))
+                tree_now = [e for e in scn['tree'] if e['path'] not in gone and e['path'] not in newp] + list(scn.get('late', []))
+            for e in tree_now:
                 segs = e['path'].split('!/')
                 base = os.path.basename(segs[-1])
                 data = _data(e)
@@ -306,7 +338,7 @@ def run(scn):
                 # every directory that is searched
                 dirs_ = set([''])
                 if scn.get('recursive', True):
-                    for e in scn['tree']:
+                    for e in tree_now:
                         p_ = os.path.dirname(e['path'])
                         while p_:
                             dirs_.add(p_)
@@ -379,6 +411,8 @@ def run(scn):
         if tz:
             os.environ['TZ'] = 'UTC'
             time.tzset()
+        if scn.get('chdir'):
+            os.chdir(CWD0)
         core.drop_root(root)
 
 
@@ -571,6 +605,24 @@ def generate(rng, tier):
                 scn['useIndexFile'] = False
         if rng.random() < 0.2:
             scn['empty_dirs'] = ['emptydir', name]   # a directory named like the module
+        if rng.random() < 0.15:
+            # the tree changes while the reader object is alive: files appear (preferably in a new directory below an
+            # existing one, so that the searched directory itself is not modified), are replaced, or vanish
+            have = sorted(set(os.path.dirname(e['path']) for e in tree if '/' in e['path']))
+            late = []
+            for _ in range(rng.choice([1, 1, 2])):
+                d0 = (rng.choice(have) + '/' + rng.choice(['late', 'late/er'])) if have and rng.random() < 0.7 else rng.choice(['fresh', 'fresh/deep', 'sub/new', ''])
+                base = rng.choice(cands) if rng.random() < 0.8 else rng.choice(near)
+                path = (d0 + '/' if d0 else '') + base
+                if any(p.startswith(path + '/') or path.startswith(p + '/') for p in used) or path in [x['path'] for x in late]:
+                    continue
+                late.append({'path': path, 'hex': _hex(gen_content(rng, 'late:' + path)), 'mtime': rng.choice(SEASONS) + 2 * rng.randrange(0, 600000)})
+            if late:
+                scn['late'] = late
+            if tree and rng.random() < 0.3:
+                scn['late_remove'] = [rng.choice(tree)['path']]
+            if (scn.get('late') or scn.get('late_remove')) and not scn.get('more_requests'):
+                scn['repeat'] = 2
     else:
         scn['url_style'] = rng.choice(['bare', 'bare', 'zip', 'zip', 'zip-host'])
         scn['zipext'] = rng.choice(['.zip', '.zip', '.ZIP'])
@@ -578,6 +630,9 @@ def generate(rng, tier):
             scn['notazip'] = True
         if rng.random() < 0.1:
             scn['ignoreErrors'] = False
+        if rng.random() < 0.08:
+            scn['chdir'] = True
+            scn['url_style'] = 'bare'
     if rng.random() < 0.15:
         sizes = sorted(set(len(binascii.unhexlify(e['hex'])) for e in tree if e['hex']))
         scn['maxMibSize'] = rng.choice(sizes + [s + 1 for s in sizes] + [16, 64]) if sizes else 16
@@ -619,7 +674,7 @@ def shrink(scn):
             s = copy.deepcopy(scn)
             s['tree'][i].pop('pad')
             yield s
-    for k in ('maxMibSize', 'index', 'empty_dirs', 'repeat', 'recursive', 'ignoreErrors', 'useIndexFile', 'notazip', 'more_requests', 'tz', 'second_opts', 'decoy', 'linkdir'):
+    for k in ('late', 'late_remove', 'chdir', 'maxMibSize', 'index', 'empty_dirs', 'repeat', 'recursive', 'ignoreErrors', 'useIndexFile', 'notazip', 'more_requests', 'tz', 'second_opts', 'decoy', 'linkdir'):
         if k in scn:
             s = copy.deepcopy(scn)
             s.pop(k)
